@@ -55,6 +55,8 @@ def _tags(case):
         "rn": U.renorm_class(case["renorm"], case["mode"]),
         "orient": orient,
         "single": case["dtype"] in U.SINGLE,
+        # the iterative drivers switch to their dense fall-back above half of the dimension
+        "iterk": bool(case["method"] in ITER and 0 < case["maxb"] <= len(s) // 2),
     }
 
 
@@ -80,15 +82,24 @@ def _record(case, path, tid, exc, obs, extra=None):
     return r
 
 
-def _summary(rec):
-    return {k: rec[k] for k in ("hasL", "hasS", "hasR", "k", "e2", "sum1", "sum2", "svL2", "svS2", "svR2")} | {"ret": rec["exc"] == ""}
+def _summary(rec, rp):
+    """what two implementations must agree on: lattice valued observations only (after a
+    renormalisation the values are not integers: they are compared directly through `rel`,
+    and through the one sum the law makes an integer)"""
+    keys = ["hasL", "hasS", "hasR", "k", "e2"]
+    if rp == 0:
+        keys += ["sum1", "sum2", "svL2", "svS2", "svR2"]
+    else:
+        keys += ["sum1" if rp == 1 else "sum2"]
+    return {k: rec[k] for k in keys} | {"ret": rec["exc"] == ""}
 
 
 def observe(case, rng, kind, paths, tid, variant=0, hist="", clear=True):
     """Run one case on one input through the requested paths. -> (split records, agree records)"""
     A = make_input(case, rng, kind)
     winfo = case["method"] in WINFO
-    rescaled = U.renorm_power(case["renorm"], case["mode"]) > 0
+    rp = U.renorm_power(case["renorm"], case["mode"])
+    rescaled = rp > 0
     recs, seffs = [], {}
     for path in paths:
         if clear:
@@ -102,7 +113,9 @@ def observe(case, rng, kind, paths, tid, variant=0, hist="", clear=True):
             mats = [A, A2]
         else:
             get = {"tensor:None": None, "tensor:tensors": "tensors", "tensor:arrays": "arrays"}[path]
-            exc, L, S, R, err, cl, cr, lab, At = U.call_tensor(A, case, get, winfo, rng, variant)
+            # hermitian methods need the matricisation itself hermitian: both label orders are given
+            v = 2 if case["inp"] == "herm" else variant
+            exc, L, S, R, err, cl, cr, lab, At = U.call_tensor(A, case, get, winfo, rng, v)
             outs = [] if exc else [(L, S, R, err)]
             mats = [At]
         if exc:
@@ -130,7 +143,7 @@ def observe(case, rng, kind, paths, tid, variant=0, hist="", clear=True):
                 sa, sb = seffs.get("numba"), seffs.get(other)
                 if sa is not None and sb is not None:
                     rel = qdiff(sa, sb, U.tol_of(case["dtype"]))
-                ag = {"ev": "agree", "tid": tid, "pa": "numba", "pb": other, "oa": _summary(a), "ob": _summary(b), "rel": int(rel),
+                ag = {"ev": "agree", "tid": tid, "pa": "numba", "pb": other, "oa": _summary(a, rp), "ob": _summary(b, rp), "rel": int(rel),
                       "exa": a["exc"], "exb": b["exc"]}
                 for k in _CASE_KEYS:
                     ag[k] = case[k]
@@ -194,14 +207,18 @@ def table_cases(tc, idx, quick, rng):
         for j, sp in enumerate(specs if not quick else specs[:1]):
             s = sp[0]
             rank = sum(1 for x in s if x)
-            for dt in ([dts[(idx + j) % 2]] if quick else dts):
+            # scipy's interpolative routines reject single precision with a clear error: double only
+            for dt in ([dts[(idx + j) % 2]] if quick else (dts[:2] if method == "isvd" else dts)):
                 if method == "eigsh":
                     c = _case(method, absorb, dt, "herm", s, len(s), len(s), signs=sp[1])
                 else:
                     c = _case(method, absorb, dt, "gen", s, sp[1], sp[2])
                 c["mode"] = "rsum2"
-                c["maxb"] = rank if trunc else 0  # exact-rank regime / no truncation requested at all
+                # exact-rank regime (iterative branch) / a cap equal to the full dimension (dense fall-back)
+                c["maxb"] = rank if trunc else len(s)
                 out.append(c)
+                if trunc and rank > 1 and (idx + j) % 3 == 0:
+                    out.append(dict(c, maxb=rank - 1))  # below the rank: judged on the cap and the form only
         return out
     if method in HERM:
         specs = PD_SPECS if method == "cholesky" else HERM_SPECS
@@ -243,7 +260,8 @@ def paths_for(case, idx, quick):
     paths = ["numba"]
     if method not in ITER:
         paths.append("generic")
-        if not quick or idx % 3 == 0:
+        # the batched LU / polar drivers do not exist (they raise): out of scope
+        if (not quick or idx % 3 == 0) and method not in ("lu", "polar_right", "polar_left"):
             paths.append("batch")
     # tensor_split documents every form but 's'/'lsqrt'/'rsqrt'; a network (get=None) needs both factors
     if c not in ("s", "lsqrt", "rsqrt"):
@@ -403,7 +421,7 @@ def run(ctx):
                             v = qtn.Tensor(A, inds=("a", "b")).split(["a"], get="values", method=method)
                         else:
                             v = qtn.Tensor(A, inds=("a", "b")).singular_values(["a"], method=method)
-                        vals = U._snap_list(np.sort(np.abs(np.asarray(v)) ** 2)[::-1], U.tol_of(dt))
+                        vals = U._snap_list(np.sort(np.abs(np.asarray(v)) ** 2)[::-1], dt)
                     except Exception as ex:  # noqa
                         exc = type(ex).__name__
                     sv.append({"ev": "svals", "tid": tid, "method": method, "route": route, "dtype": dt, "s": s, "m": m, "n": n,
@@ -424,7 +442,8 @@ def run(ctx):
     ctx.extra.update({"records_table_replay": ntable, "records_trunc_grid": ngrid, "records_agree": len(agrees),
                       "records_history": len(hist), "records_svals": len(sv),
                       "paths": sorted({r["path"] for r in recs if r["ev"] == "split"}),
-                      "snap_tolerance": {"double": 1e-7, "single": 2e-3}})
+                      "snap_tolerance_atol_rtol": {"double": [1e-7, 1e-9], "single": [1e-3, 1e-4]},
+                      "relation_tolerance": {"double": 1e-7, "single": 2e-3}})
     ctx.clauses.update(["model: KeptIsMinimal NeverZeroNeverAboveCap ErrorHonest RenormLawAccel RenormLawGeneric PathsAgree "
                         "AcceptedReturns TableSound RejectsUndocumented"])
     ctx.assumptions += [
